@@ -85,10 +85,12 @@ fn tracker_visit_macro<'a>(
         // side of assuming caller is there.
         state.assign("caller");
     }
-    m.args.iter().for_each(|arg| track_assign(arg, state));
+    // a default is evaluated before its own parameter (and all parameters
+    // before it) are bound, so defaults are visited first.
     m.defaults
         .iter()
         .for_each(|expr| tracker_visit_expr(expr, state));
+    m.args.iter().for_each(|arg| track_assign(arg, state));
     m.body.iter().for_each(|node| track_walk(node, state));
 }
 
@@ -219,11 +221,13 @@ fn track_walk<'a>(node: &ast::Stmt<'a>, state: &mut AssignmentTracker<'a>) {
         ast::Stmt::EmitExpr(expr) => tracker_visit_expr(&expr.expr, state),
         ast::Stmt::EmitRaw(_) => {}
         ast::Stmt::ForLoop(stmt) => {
-            state.push();
-            state.assign("loop");
+            // the iterable is evaluated outside of the loop and the filter
+            // runs before the `loop` variable exists.
             tracker_visit_expr(&stmt.iter, state);
+            state.push();
             track_assign(&stmt.target, state);
             tracker_visit_expr_opt(&stmt.filter_expr, state);
+            state.assign("loop");
             stmt.body.iter().for_each(|x| track_walk(x, state));
             state.pop();
             state.push();
@@ -242,15 +246,21 @@ fn track_walk<'a>(node: &ast::Stmt<'a>, state: &mut AssignmentTracker<'a>) {
         ast::Stmt::WithBlock(stmt) => {
             state.push();
             for (target, expr) in &stmt.assignments {
-                track_assign(target, state);
+                // the value is evaluated before the target is bound
                 tracker_visit_expr(expr, state);
+                track_assign(target, state);
             }
             stmt.body.iter().for_each(|x| track_walk(x, state));
             state.pop();
         }
         ast::Stmt::Set(stmt) => {
-            track_assign(&stmt.target, state);
+            // the value is evaluated before the target is bound, and
+            // `set ns.attr = ...` reads `ns`.
             tracker_visit_expr(&stmt.expr, state);
+            if let ast::Expr::GetAttr(_) = stmt.target {
+                tracker_visit_expr(&stmt.target, state);
+            }
+            track_assign(&stmt.target, state);
         }
         ast::Stmt::AutoEscape(stmt) => {
             tracker_visit_expr(&stmt.enabled, state);
@@ -265,10 +275,15 @@ fn track_walk<'a>(node: &ast::Stmt<'a>, state: &mut AssignmentTracker<'a>) {
             tracker_visit_expr(&stmt.filter, state);
         }
         ast::Stmt::SetBlock(stmt) => {
-            track_assign(&stmt.target, state);
+            // the body and the filter are evaluated before the target is bound
             state.push();
             stmt.body.iter().for_each(|x| track_walk(x, state));
             state.pop();
+            tracker_visit_expr_opt(&stmt.filter, state);
+            if let ast::Expr::GetAttr(_) = stmt.target {
+                tracker_visit_expr(&stmt.target, state);
+            }
+            track_assign(&stmt.target, state);
         }
         #[cfg(feature = "multi_template")]
         ast::Stmt::Block(stmt) => {
